@@ -1031,6 +1031,31 @@ func runLegacyDo(t *testing.T, run *vt.Run, c vt.CaseID, rng *rand.Rand) {
 	}
 	answered := map[string]int{}
 	var trace []string
+	// how many calls may have been started: without a delay (or with the zone-aware tracker) all of them at once; with a
+	// delay the last MaxErrors instances are held back, one more is released per failed call, all once the delay has passed
+	releasedAll := delay == 0 || q.MaxUnavailableZones > 0
+	startedBound := func() int {
+		if releasedAll {
+			return len(q.Instances)
+		}
+		fails := 0
+		for _, o := range answered {
+			if o != oOK {
+				fails++
+			}
+		}
+		return min(len(q.Instances), len(q.Instances)-q.MaxErrors+fails)
+	}
+	checkStarted := func(when string) {
+		mu.Lock()
+		n := len(count)
+		mu.Unlock()
+		if b := startedBound(); n > b {
+			viol("more-calls-than-released", fmt.Sprintf("%d instances have been called %s, but only %d may have been released (held back: the last MaxErrors; one more per failure; all after the delay)", n, when, b), map[string]any{"trace": trace, "answered": answered})
+		}
+		run.Count("legacy_started_bound_checks", 1)
+	}
+	checkStarted("at the start")
 	for step := 0; step < 30; step++ {
 		poll()
 		mu.Lock()
@@ -1047,6 +1072,7 @@ func runLegacyDo(t *testing.T, run *vt.Run, c vt.CaseID, rng *rand.Rand) {
 			}
 			if delay > 0 {
 				time.Sleep(delay)
+				releasedAll = true
 				synctest.Wait()
 				trace = append(trace, "delay")
 				mu.Lock()
@@ -1073,9 +1099,11 @@ func runLegacyDo(t *testing.T, run *vt.Run, c vt.CaseID, rng *rand.Rand) {
 		trace = append(trace, fmt.Sprintf("%s=%d", l.id, q.Outcomes[l.id]))
 		poll()
 		if was {
+			checkStarted("after Do had returned")
 			continue
 		}
 		answered[l.id] = q.Outcomes[l.id]
+		checkStarted(fmt.Sprintf("after %d answers", len(answered)))
 		v, _ := decideRead(q, answered)
 		switch {
 		case v == undecided && returned != nil:
@@ -1113,6 +1141,17 @@ func runLegacyDo(t *testing.T, run *vt.Run, c vt.CaseID, rng *rand.Rand) {
 	if returned == nil {
 		viol("never-returned", "Do did not return", map[string]any{"trace": trace})
 	}
+	// calls that only start once Do has ended (released by nothing): let them finish, then count
+	mu.Lock()
+	for _, l := range calls {
+		if !l.rel {
+			l.rel = true
+			close(l.gate)
+		}
+	}
+	mu.Unlock()
+	synctest.Wait()
+	checkStarted("by the time Do had ended and everything was quiet")
 	run.EvalH(vt.Hash64(fmt.Sprintf("%+v|%v|%v", q, delay, trace)), len(q.Instances) > 1)
 }
 
